@@ -133,10 +133,12 @@ def check_not_normalised(ctx: Ctx, rule: str):
     ok = bool(simp) and not raw and len(over_simplified) == len([c for c in comps if c[2][0] != "comp"])
     # ... and the front end builds logical connectives *evaluated* (sympy then rewrites Not(a > b) to a <= b at
     # construction); an unevaluated Not reaches the printers of top-level conditionals, which do not go through simplify
-    be = ctx.sm.func("expressions.py", "build_expression.expr2symbols", required=False)
+    from . import common as _cm
+
+    be = _cm.tree_builder(ctx, required=False)
     if be is not None:
-        bv_ = util.value_of(ctx, be)
-        cases = util.dispatch_cases(bv_, ("sym", f"{be.params[0]}.data"))
+        be, bv_, _ref, kt_ = _cm.builder_values(ctx)
+        cases = util.dispatch_cases(bv_, kt_)
         lv = cases.get("logicalfunc")
         if lv is not None and not _av.has_unk(lv):
             uneval = [c for c in _av.find_all(lv, "call") if ("evaluate", _av.C(False)) in c[3]]
